@@ -7,7 +7,7 @@
     rather than proved: encoding/json's scanner and struct-tag decoding
     (inputs are generic trees), and the transaction engine below the row
     operations; both are exercised by the driver on corrupted inputs. *)
-From LOV Require Import Wire.Decode Wire.DecodeProofs Wire.SchemaCodecProofs Wire.SchemaCodec Db.TotalProofs Upd.Merge.
+From LOV Require Import Wire.Decode Wire.DecodeProofs Wire.SchemaCodecProofs Wire.SchemaCodec Wire.Operation Wire.OperationProofs Db.TotalProofs Upd.Merge.
 
 Theorem C19_notation_total : forall fuel v, is_panic (notation fuel v) = false.
 Proof. exact notation_never_panics. Qed.
@@ -48,6 +48,10 @@ Print Assumptions C19_column_type_total.
 Theorem C19_column_total : forall v, is_panic (dec_column v) = false.
 Proof. exact dec_column_never_panics. Qed.
 Print Assumptions C19_column_total.
+
+Theorem C19_operation_total : forall fuel v, is_panic (dec_op fuel v) = false.
+Proof. exact dec_op_never_panics. Qed.
+Print Assumptions C19_operation_total.
 
 (** the row operations of the engine answer every argument with a row or an error *)
 Theorem C19_row_operations_total : forall T cur op, is_panic (rop_apply T cur op) = false.
